@@ -5,6 +5,7 @@ pre_exec); spawn/status/output hand the log to P.state['spawn'](P, record) suppl
 harness, which returns the child's exit status / output (symbolic).  Every spawned record is
 appended to P.events as ('spawn', record).
 """
+import z3
 from . import model, pattern
 from .util import *
 
@@ -18,6 +19,7 @@ class Cmd:
         self.stdio = []
         self.cwd = None
         self.pre_exec = 0
+        self.pre_exec_closures = []
 
     def record(self):
         return {'program': self.program, 'args': list(self.args), 'env': list(self.env), 'env_removed': list(self.env_removed),
@@ -95,10 +97,16 @@ def c_stdio_val(P, c, args, dt):
 @model('std::os::unix::process::CommandExt::pre_exec')
 def c_pre_exec(P, c, args, dt):
     _cmd(args[0]).pre_exec += 1
+    _cmd(args[0]).pre_exec_closures.append(args[1])
     return args[0]
 
 
 def _spawn(P, cmd, how):
+    # what the child does between fork and exec
+    P.events.append(('pre_exec_begin',))
+    for cl in cmd.pre_exec_closures:
+        P.call_value(cl, [])
+    P.events.append(('pre_exec_end',))
     rec = cmd.record()
     rec['how'] = how
     P.events.append(('spawn', rec))
@@ -182,13 +190,38 @@ def at_load(P, c, args, dt):
     raise Unsupported('atomic load')
 
 
+def _tty(P, fd):
+    """is file descriptor fd a terminal: one symbolic answer per descriptor and path"""
+    t = P.state.setdefault('isatty', {})
+    if not isinstance(t, dict):
+        t = {}
+        P.state['isatty'] = t
+    if fd not in t:
+        v = Sc(P.fresh(32, 'isatty%d' % fd), 32, True)
+        P.assume(z3.Or(v.v == 0, v.v == 1))
+        t[fd] = v
+    return t[fd]
+
+
 @model('libc::isatty', 'libc::unix::isatty')
 def libc_isatty(P, c, args, dt):
-    t = P.state.get('isatty')
-    if t is None:
-        t = Sc(P.fresh(32, 'isatty'), 32, True)
-        P.state['isatty'] = t
-    return t
+    fd = args[0]
+    if not (isinstance(fd, Sc) and fd.concrete):
+        raise Unsupported('isatty of a symbolic descriptor')
+    return _tty(P, fd.v)
+
+
+@model('std::io::stdin', 'std::io::stdout', 'std::io::stderr')
+def io_handle(P, c, args, dt):
+    return Opaque('StdHandle', {'stdin': 0, 'stdout': 1, 'stderr': 2}[c.method])
+
+
+@model('std::io::IsTerminal::is_terminal')
+def io_is_terminal(P, c, args, dt):
+    hnd = tgt(args[0])
+    if not (isinstance(hnd, Opaque) and hnd.tag == 'StdHandle'):
+        raise Unsupported('is_terminal of %r' % (hnd,))
+    return binop('Eq', _tty(P, hnd.p), Sc(1, 32, True))
 
 
 @model('libc::signal', 'libc::unix::signal')
@@ -199,4 +232,5 @@ def libc_signal(P, c, args, dt):
 
 @model('libc::setpgid', 'libc::unix::setpgid', 'libc::kill', 'libc::unix::kill')
 def libc_misc(P, c, args, dt):
+    P.events.append((c.method, list(args)))
     return Sc(0, 32, True)
